@@ -1,13 +1,25 @@
 """C10 — transposition shifts every pitch, key and chord by the same interval (DESIGN 6.10)."""
 import ast
+import copy
 
-from gen.translit import FnTranslator, Untranslatable, PRELUDE
-from harness.common import lean_int, lean_list, lean_str
+from gen.translit import FnTranslator, Untranslatable
+from harness import nswire
+from harness.common import MachineryError, corpus_cases, lean_int, lean_list, lean_str, wl
 
 PID = 'C10'
 MODULES = ['NoteSeqVerif.Props.C10']
 EXE = 'drv_c10'
-THEOREMS = []
+THEOREMS = [
+    ('NoteSeqVerif.Props.C10', 'NSV.C10.' + t) for t in [
+        'stepsAbove_pos', 'walk_spec',
+        'transpose_pitch_class_hom', 'midi_range', 'transpose_pitch_class_octave', 'transpose_pitch_class_mod',
+        'transpose_pitch_class_inverse', 'transpose_pitch_class_alter', 'parse_print_pitch_class',
+        'transpose_symbol_hom', 'transpose_symbol_inverse', 'transpose_symbol_octave',
+        'transpose_ns_spec', 'moveNote_spec', 'keepNote_iff', 'transpose_ns_error', 'transpose_ns_chords_hom',
+        'transpose_key_range', 'clamp_transpose_in_bounds', 'augment_deletes_nothing',
+        'melody_transpose_fold', 'melody_transpose_special', 'melody_transpose_exact', 'melody_transpose_events',
+        'melody_transpose_inverse', 'major_key_range', 'squash_spec',
+        'chord_progression_transpose_spec', 'lead_sheet_transpose_spec']]
 
 STEPS = 'ABCDEFG'
 
@@ -91,3 +103,947 @@ def generate(chk):
            + '/-- `sequences_lib._clamp_transpose`, transliterated -/\n' + clamp_txt
            + 'end NSV.C10.Gen\n')
     chk.regenerate('NoteSeqVerif/Generated/C10.lean', txt)
+
+
+# ----------------------------------------------------------------------------- the string layer (real code)
+def hx(s):
+    return nswire.hx(s)
+
+
+def split_struct(csl, fig):
+    """what the REAL splitter / parsers say about `fig` (None = ChordSymbolError): the structured symbol
+    the Lean model works on.  The regex layer is modelled, not verified: it is taken from the code."""
+    try:
+        parts = csl._split_chord_symbol(fig)
+    except csl.ChordSymbolError:
+        return None
+    root_str, kind_str, mods_str, bass_str = parts
+    mods, rest = [], mods_str
+    while rest:
+        m = csl._MODIFICATION_REGEX.match(rest)
+        mods.append((m.group(1), int(m.group(2))))
+        rest = rest[m.end():]
+    real = csl._parse_modifications(mods_str)
+    mine = [(csl._DEGREE_MODIFICATIONS[t][0], d, csl._DEGREE_MODIFICATIONS[t][1]) for t, d in mods]
+    if real != mine:
+        raise MachineryError('harness copy of the _parse_modifications loop differs from the code on %r' % mods_str)
+    return {'root': csl._parse_root(root_str), 'kind': kind_str, 'mods': mods_str, 'modlist': mods,
+            'bass': csl._parse_bass(bass_str), 'parts': parts}
+
+
+def pc_tokens(pc):
+    return '%d %d' % (STEPS.index(pc[0]), pc[1])
+
+
+def sym_tokens(st):
+    t = [pc_tokens(st['root']), hx(st['kind']), hx(st['mods']), str(len(st['modlist']))]
+    for ty, d in st['modlist']:
+        t += [hx(ty), str(d)]
+    t.append('1 ' + pc_tokens(st['bass']) if st['bass'] else '0 0 0')
+    return ' '.join(t)
+
+
+def table_tokens(csl, texts):
+    ents = []
+    for tx in sorted(set(texts)):
+        st = split_struct(csl, tx)
+        ents.append(hx(tx) + (' U' if st is None else ' S ' + sym_tokens(st)))
+    return wl(ents)
+
+
+def _val(csl, f, fig):
+    try:
+        return f(fig)
+    except csl.ChordSymbolError:
+        return 'E:ChordSymbolError'
+    except Exception as e:  # pylint: disable=broad-except
+        return 'E:' + type(e).__name__
+
+
+def values(csl, fig):
+    """(root, bass, quality, pitches) as the real code computes them; errors as 'E:<name>' strings"""
+    return (_val(csl, csl.chord_symbol_root, fig), _val(csl, csl.chord_symbol_bass, fig),
+            _val(csl, csl.chord_symbol_quality, fig), _val(csl, csl.chord_symbol_pitches, fig))
+
+
+def values_tokens(v):
+    return '%s %s %s %s' % (v[0], v[1], v[2], v[3] if isinstance(v[3], str) else wl(v[3]))
+
+
+def struct_tokens(st):
+    return pc_tokens(st['root']) + (' 1 ' + pc_tokens(st['bass']) if st['bass'] else ' 0 0 0')
+
+
+# ----------------------------------------------------------------------------- oracles (from the property text)
+def _pcs(v):
+    return None if isinstance(v, str) else {x % 12 for x in v}
+
+
+def oracle_values(fig, k, v0, t, v1, what='transposed'):
+    """root, bass, pitch-class set move by k modulo 12, quality unchanged (v = values())"""
+    if isinstance(v0[0], str) or isinstance(v0[1], str):
+        return None           # the figure is not a chord symbol of the grammar: nothing is stated
+    if isinstance(v1[0], str) or isinstance(v1[1], str):
+        return '%s figure %r of %r (k=%d) cannot be interpreted' % (what, t, fig, k)
+    if v1[0] != (v0[0] + k) % 12:
+        return 'root of %r is %d, transposing by %d gives %r with root %d' % (fig, v0[0], k, t, v1[0])
+    if v1[1] != (v0[1] + k) % 12:
+        return 'bass of %r is %d, transposing by %d gives %r with bass %d' % (fig, v0[1], k, t, v1[1])
+    if isinstance(v0[3], str) or isinstance(v0[2], str):
+        return None           # modifications that cannot be applied: pitches / quality are undefined
+    if isinstance(v1[3], str) or isinstance(v1[2], str):
+        return 'pitches of %s figure %r of %r (k=%d) cannot be computed' % (what, t, fig, k)
+    if _pcs(v1[3]) != {(x + k) % 12 for x in v0[3]}:
+        return 'pitch classes of %r are %s, transposing by %d gives %r with %s' % (fig, sorted(_pcs(v0[3])), k, t, sorted(_pcs(v1[3])))
+    if v1[2] != v0[2]:
+        return 'quality of %r is %s, of %r (k=%d) %s' % (fig, v0[2], t, k, v1[2])
+    return None
+
+
+def oracle_sym(csl, fig, k):
+    """one chord figure, one amount, evaluated on the real string functions only"""
+    try:
+        v0 = values(csl, fig)
+        if isinstance(v0[0], str):
+            return None
+        t = csl.transpose_chord_symbol(fig, k)
+        r = oracle_values(fig, k, v0, t, values(csl, t))
+        if r:
+            return r
+        back = csl.transpose_chord_symbol(t, -k)
+        r = oracle_values(fig, 0, v0, back, values(csl, back), 'k then -k')
+        if r:
+            return r
+        octv = csl.transpose_chord_symbol(fig, 12)
+        return oracle_values(fig, 0, v0, octv, values(csl, octv), 'octave-transposed')
+    except Exception as e:  # pylint: disable=broad-except
+        return 'implementation raised %s: %s' % (type(e).__name__, e)
+
+
+def oracle_pc(csl, step, alter, k):
+    try:
+        s2, a2 = csl._transpose_pitch_class(step, alter, k)
+        m0, m1 = csl._pitch_class_to_midi(step, alter), csl._pitch_class_to_midi(s2, a2)
+        txt = csl._pitch_class_to_string(s2, a2)
+    except Exception as e:  # pylint: disable=broad-except
+        return 'implementation raised %s: %s' % (type(e).__name__, e)
+    if m1 != (m0 + k) % 12:
+        return 'pitch class %s%+d is %d; transposed by %d it is spelled %s = %d' % (step, alter, m0, k, txt, m1)
+    if '#' in txt and 'b' in txt:
+        return 'spelling %s mixes sharps and flats' % txt
+    return None
+
+
+def _ser(m):
+    return m.SerializeToString(deterministic=True)
+
+
+def oracle_tns(sl, csl, ns, k, mn, mx, tc):
+    """transpose_note_sequence against the property statement (in_place=False)"""
+    from note_seq import constants
+    from note_seq.protobuf import music_pb2
+    CH, NC = sl.CHORD_SYMBOL, constants.NO_CHORD
+    chords = [ta.text for ta in ns.text_annotations if ta.annotation_type == CH and ta.text != NC]
+    v0 = {tx: values(csl, tx) for tx in set(chords)}
+    bad = [tx for tx in chords if isinstance(v0[tx][0], str)]
+    try:
+        out, deleted = sl.transpose_note_sequence(ns, k, mn, mx, tc)
+    except csl.ChordSymbolError:
+        if tc and bad:
+            return None
+        return 'ChordSymbolError although %s' % ('chord symbols are removed, not transposed' if not tc else 'every chord symbol can be interpreted')
+    except Exception as e:  # pylint: disable=broad-except
+        return 'implementation raised %s: %s' % (type(e).__name__, e)
+    # notes
+    exp, ndel = [], 0
+    for n in ns.notes:
+        if n.is_drum:
+            exp.append((n, True))
+        elif mn <= n.pitch + k <= mx:
+            c = music_pb2.NoteSequence.Note()
+            c.CopyFrom(n)
+            c.pitch = n.pitch + k
+            exp.append((c, False))
+        else:
+            ndel += 1
+    if deleted != ndel:
+        return 'reported %d deleted notes, %d pitched notes leave [%d, %d]' % (deleted, ndel, mn, mx)
+    if len(out.notes) != len(exp):
+        return '%d notes returned, %d expected' % (len(out.notes), len(exp))
+    for i, ((a, drum), b) in enumerate(zip(exp, out.notes)):
+        if not drum:
+            c = music_pb2.NoteSequence.Note()
+            c.CopyFrom(b)
+            c.pitch_name = a.pitch_name     # the statement says nothing about the pitch name
+            b = c
+        if _ser(a) != _ser(b):
+            return 'output note %d is (pitch %d, vel %d, %r-%r, drum %s); expected (pitch %d, vel %d, %r-%r, drum %s)' % (
+                i, b.pitch, b.velocity, b.start_time, b.end_time, b.is_drum, a.pitch, a.velocity, a.start_time, a.end_time, a.is_drum)
+    kept_end = max([0.0] + [n.end_time for n in out.notes])
+    if out.total_time not in (ns.total_time, kept_end):
+        return 'total_time %r is neither the input total_time %r nor the last kept note end %r' % (out.total_time, ns.total_time, kept_end)
+    # key signatures
+    if len(out.key_signatures) != len(ns.key_signatures):
+        return 'number of key signatures changed'
+    for a, b in zip(ns.key_signatures, out.key_signatures):
+        if b.key != (a.key + k) % 12 or b.time != a.time or b.mode != a.mode:
+            return 'key signature (key %d, mode %d, time %r) became (key %d, mode %d, time %r) for k=%d' % (a.key, a.mode, a.time, b.key, b.mode, b.time, k)
+    # annotations
+    if tc:
+        if len(out.text_annotations) != len(ns.text_annotations):
+            return 'number of text annotations changed'
+        for a, b in zip(ns.text_annotations, out.text_annotations):
+            if a.annotation_type == CH and a.text != NC:
+                c = music_pb2.NoteSequence.TextAnnotation()
+                c.CopyFrom(b)
+                c.text = a.text
+                if _ser(c) != _ser(a):
+                    return 'a chord annotation changed in more than its text'
+                r = oracle_values(a.text, k, v0[a.text], b.text, values(csl, b.text))
+                if r:
+                    return r
+            elif _ser(a) != _ser(b):
+                return 'annotation %r (type %d) changed to %r' % (a.text, a.annotation_type, b.text)
+    else:
+        keep = [a for a in ns.text_annotations if a.annotation_type != CH]
+        if [_ser(a) for a in keep] != [_ser(b) for b in out.text_annotations]:
+            return 'transpose_chords=False: the remaining annotations are not exactly the non-chord annotations'
+    # everything else
+    x, y = music_pb2.NoteSequence(), music_pb2.NoteSequence()
+    x.CopyFrom(ns)
+    y.CopyFrom(out)
+    for m in (x, y):
+        for f in ('notes', 'total_time', 'key_signatures', 'text_annotations'):
+            m.ClearField(f)
+    if _ser(x) != _ser(y):
+        return 'a field other than notes / total_time / key signatures / chord annotations changed'
+    return None
+
+
+def run_melody(ml, events, k, mn, mx):
+    m = ml.Melody(list(events))
+    m.transpose(k, mn, mx)
+    return [int(e) for e in m]
+
+
+def oracle_mel(ml, events, k, mn, mx):
+    if mx - mn < 12:
+        return None
+    try:
+        out = run_melody(ml, events, k, mn, mx)
+        if len(out) != len(events):
+            return 'melody length changed'
+        for a, b in zip(events, out):
+            if a < 0:
+                if b != a:
+                    return 'special event %d became %d' % (a, b)
+            elif not (mn <= b < mx and (b - a - k) % 12 == 0):
+                return 'event %d transposed by %d into [%d, %d) became %d' % (a, k, mn, mx, b)
+        if mn >= 0:
+            m = ml.Melody(list(events))
+            m.transpose(k, mn, mx)
+            m.transpose(-k, mn, mx)
+            for a, b in zip(events, m):
+                if (a < 0 and b != a) or (a >= 0 and (b - a) % 12):
+                    return 'k then -k: event %d became %d' % (a, b)
+            m = ml.Melody(list(events))
+            m.transpose(12, mn, mx)
+            for a, b in zip(events, m):
+                if (a < 0 and b != a) or (a >= 0 and (b - a) % 12):
+                    return 'transposing by 12: event %d became %d' % (a, b)
+    except Exception as e:  # pylint: disable=broad-except
+        return 'implementation raised %s: %s' % (type(e).__name__, e)
+    return None
+
+
+def run_squash(ml, events, mn, mx, key):
+    m = ml.Melody(list(events))
+    a = m.squash(mn, mx, key)
+    return int(a), [int(e) for e in m]
+
+
+def oracle_squash(ml, events, mn, mx, key):
+    if mx - mn < 12:
+        return None
+    try:
+        mk = int(ml.Melody(list(events)).get_major_key())
+        a, out = run_squash(ml, events, mn, mx, key)
+        pitched = [e for e in events if e >= 0]
+        if key is None:
+            if a != 0:
+                return 'squash without a key returned %d' % a
+        elif pitched and (a - (key - mk)) % 12:
+            return 'squash to key %d of a melody in key %d returned %d' % (key, mk, a)
+        for x, y in zip(events, out):
+            if x < 0:
+                if y != x:
+                    return 'special event %d became %d' % (x, y)
+            elif not (mn <= y < mx and (y - x - a) % 12 == 0):
+                return 'event %d squashed (amount %d) into [%d, %d) became %d' % (x, a, mn, mx, y)
+    except Exception as e:  # pylint: disable=broad-except
+        return 'implementation raised %s: %s' % (type(e).__name__, e)
+    return None
+
+
+def run_cp(cl, csl, figs, k):
+    cp = cl.ChordProgression(list(figs))
+    try:
+        cp.transpose(k)
+        st = 'ok'
+    except csl.ChordSymbolError:
+        st = 'err:ChordSymbolError'
+    except Exception as e:  # pylint: disable=broad-except
+        st = 'err:' + type(e).__name__
+    return st, list(cp)
+
+
+def oracle_figs(csl, figs, out, k, st, what='transposed'):
+    """chord events of a progression before/after transposition by k"""
+    from note_seq import constants
+    NC = constants.NO_CHORD
+    v0 = {f: values(csl, f) for f in set(figs) if f != NC}
+    bad = [f for f in figs if f != NC and isinstance(v0[f][0], str)]
+    if st != 'ok':
+        if st == 'err:ChordSymbolError' and bad:
+            return None
+        return 'transposition raised %s although every chord can be interpreted' % st[4:]
+    if len(out) != len(figs):
+        return 'number of chord events changed'
+    for a, b in zip(figs, out):
+        if a == NC:
+            if b != NC:
+                return 'N.C. became %r' % b
+        else:
+            r = oracle_values(a, k, v0[a], b, values(csl, b), what)
+            if r:
+                return r if what == 'transposed' else '%s: %s' % (what, r)
+    return None
+
+
+def oracle_cp(cl, csl, figs, k):
+    try:
+        st, out = run_cp(cl, csl, figs, k)
+        r = oracle_figs(csl, figs, out, k, st)
+        if r or st != 'ok':
+            return r
+        cp = cl.ChordProgression(list(out))
+        cp.transpose(-k)
+        return oracle_figs(csl, figs, list(cp), 0, 'ok', 'by %d then by %d' % (k, -k))
+    except Exception as e:  # pylint: disable=broad-except
+        return 'implementation raised %s: %s' % (type(e).__name__, e)
+
+
+def run_ls(ml, cl, lsl, csl, events, figs, op, args):
+    ls = lsl.LeadSheet(ml.Melody(list(events)), cl.ChordProgression(list(figs)))
+    amount = None
+    try:
+        if op == 'ls':
+            ls.transpose(*args)
+        else:
+            amount = int(ls.squash(*args))
+        st = 'ok'
+    except csl.ChordSymbolError:
+        st = 'err:ChordSymbolError'
+    except Exception as e:  # pylint: disable=broad-except
+        st = 'err:' + type(e).__name__
+    return st, amount, [int(e) for e in ls.melody], list(ls.chords)
+
+
+def oracle_ls(ml, cl, lsl, csl, events, figs, op, args):
+    try:
+        st, amount, ev, ch = run_ls(ml, cl, lsl, csl, events, figs, op, args)
+        if op == 'ls':
+            k, mn, mx = args
+        else:
+            mn, mx, key = args
+            k = amount
+            if st == 'ok' and mx - mn >= 12:
+                mk = int(ml.Melody(list(events)).get_major_key())
+                if [e for e in events if e >= 0] and (amount - (key - mk)) % 12:
+                    return 'LeadSheet.squash to key %d of a melody in key %d returned %d' % (key, mk, amount)
+        if st == 'ok':
+            r = oracle_figs(csl, figs, ch, k, st)
+            if r:
+                return r
+        else:
+            r = oracle_figs(csl, figs, ch, 0, st)
+            if r:
+                return r
+            return None
+        if mx - mn >= 12:
+            for a, b in zip(events, ev):
+                if a < 0:
+                    if b != a:
+                        return 'special event %d became %d' % (a, b)
+                elif not (mn <= b < mx and (b - a - k) % 12 == 0):
+                    return 'lead sheet melody event %d (amount %d, range [%d, %d)) became %d' % (a, k, mn, mx, b)
+    except Exception as e:  # pylint: disable=broad-except
+        return 'implementation raised %s: %s' % (type(e).__name__, e)
+    return None
+
+
+class _FakeRandom:
+    """stands in for the `random` module inside sequences_lib during one augment call"""
+
+    def __init__(self, mode):
+        self.mode, self.range = mode, None
+
+    def uniform(self, a, b):
+        if a != b:
+            raise MachineryError('the augment stream fixes the stretch factor')
+        return a
+
+    def randint(self, a, b):
+        self.range = (a, b)
+        if a > b:
+            raise ValueError('empty range for randrange() (%d, %d, %d)' % (a, b + 1, b - a + 1))
+        return a if self.mode == 0 else b if self.mode == 1 else (a + b) // 2
+
+
+def run_aug(sl, ns, min_t, max_t, mn, mx, delete, mode):
+    from note_seq.protobuf import music_pb2
+    c = music_pb2.NoteSequence()
+    c.CopyFrom(ns)
+    fake, real = _FakeRandom(mode), sl.random
+    sl.random = fake
+    try:
+        out = sl.augment_note_sequence(c, 1.0, 1.0, min_t, max_t, mn, mx, delete)
+        return 'ok', fake.range, out
+    except Exception as e:  # pylint: disable=broad-except
+        return 'err ' + type(e).__name__, fake.range, None
+    finally:
+        sl.random = real
+
+
+def oracle_aug(sl, csl, ns, min_t, max_t, mn, mx, delete, mode):
+    """in-range sequences lose no note under clamped augmentation and move by one amount inside the request"""
+    if delete or not ns.notes or mn > mx or min_t > max_t:
+        return None
+    if any(not (mn <= n.pitch <= mx) for n in ns.notes):
+        return None
+    if any(ta.annotation_type == sl.CHORD_SYMBOL for ta in ns.text_annotations) or ns.quantization_info.ByteSize():
+        return None
+    st, rg, out = run_aug(sl, ns, min_t, max_t, mn, mx, delete, mode)
+    if st != 'ok':
+        return 'augment_note_sequence raised %s on an in-range sequence' % st[4:]
+    if len(out.notes) != len(ns.notes):
+        return 'augmentation without deletion lost %d notes' % (len(ns.notes) - len(out.notes))
+    ks = {b.pitch - a.pitch for a, b in zip(ns.notes, out.notes) if not a.is_drum}
+    if len(ks) > 1 or any(not (min(min_t, 0) <= k <= max(max_t, 0)) for k in ks):
+        return 'pitched notes moved by %s, requested [%d, %d] (clamped toward 0)' % (sorted(ks), min_t, max_t)
+    if any(not (mn <= b.pitch <= mx) for a, b in zip(ns.notes, out.notes) if not a.is_drum):
+        return 'a pitched note left the allowed range'
+    return None
+
+
+def oracle_clamp(sl, a, lo, hi, mn, mx):
+    if not (mn <= lo <= hi <= mx):
+        return None
+    try:
+        r = sl._clamp_transpose(a, lo, hi, mn, mx)
+    except Exception as e:  # pylint: disable=broad-except
+        return 'implementation raised %s: %s' % (type(e).__name__, e)
+    if not (mn <= lo + r and hi + r <= mx):
+        return 'clamped amount %d takes [%d, %d] outside [%d, %d]' % (r, lo, hi, mn, mx)
+    if (a >= 0 and not 0 <= r <= a) or (a < 0 and not a <= r <= 0):
+        return 'clamped amount %d is not between 0 and the request %d' % (r, a)
+    if mn <= lo + a and hi + a <= mx and r != a:
+        return 'request %d fits but was clamped to %d' % (a, r)
+    return None
+
+
+# ----------------------------------------------------------------------------- generators
+ROOTS = [l + a for l in STEPS for a in ('', '#', 'b', '##', 'bb')]          # the 35 root spellings
+MODS = ['', '(b5)', '(add9)', '(no3)', 'b9', '(add2)(b5)', '(no5)(b9)', '(addb6)',
+        'add#11no5', '(add7)', '(b13)(#5)', '(no9)']
+BASSES = ['', '/C', '/F#', '/Bb', '/Ebb', '/G##', '/E#']
+WILD_MODS = MODS + ['(#9)', '#11', '(b9)(#9)', 'no3add4', '(add#9)', '(b5)(b5)', '(no5)(no5)', '(add13)']
+WILD_BASSES = BASSES + ['/B', '/Fb', '/A###', '/Dbbb']
+MALFORMED = ['H7', 'hello', '', 'Cfoo', 'C#b', 'c', 'C/H', 'Cm7/', 'C7/Bb/C', 'N.C', ' C', 'Cm 7', 'C(b5', '7', '#C', 'Do']
+ODD_VALID = ['C\n', 'C####', 'Dbbbbb/F###', 'E#m7b5', 'Fbmaj7/Cb', 'B#/o7', 'Cb6/9', 'G/o', 'A-(M7)(add2)', 'Bmin(maj7)/A#',
+             'C(add3)', 'Dm(no7)', 'E7(add7)', 'F5(b9)(#9)', 'Gsus(no4)(add3)', 'A13(b5)(#9)(b13)', 'Cadd9', 'C(b15)', 'Cno1']
+
+
+def gen_figure(rng, kinds):
+    k = rng.random()
+    if k < 0.06:
+        return rng.choice(ODD_VALID)
+    root = rng.choice(ROOTS) if k < 0.9 else rng.choice(STEPS) + rng.choice('#b') * rng.randrange(0, 7)
+    return root + rng.choice(kinds) + rng.choice(WILD_MODS) + rng.choice(WILD_BASSES)
+
+
+def gen_k(rng):
+    r = rng.random()
+    return rng.randint(-12, 12) if r < 0.55 else rng.choice([0, 12, -12, 24, -24, 1, -1, 11, -11, 127, -127]) if r < 0.7 else rng.randint(-127, 127)
+
+
+def gen_tns(rng, kinds):
+    """NoteSequence + (k, min, max, transpose_chords): pitched and drum notes at the range edges, key
+    signatures, chord / N.C. / other annotations, sometimes an uninterpretable chord"""
+    hist = set()
+    ns = nswire.NSGen(rng, max_notes=rng.choice([0, 2, 6, 12, 25])).make(texts=False)
+    r = rng.random()
+    if r < 0.5:
+        mn, mx = sorted((rng.randrange(128), rng.randrange(128)))
+        hist.add('range:random')
+    elif r < 0.65:
+        mn, mx = 0, 127
+        hist.add('range:default')
+    elif r < 0.75:
+        mn = mx = rng.randrange(128)
+        hist.add('range:single-pitch')
+    elif r < 0.83:
+        mx, mn = sorted((rng.randrange(128), rng.randrange(128)))
+        mn += 1
+        hist.add('range:empty')
+    else:
+        mn, mx = rng.randint(-20, 30), rng.randint(100, 150)
+        hist.add('range:beyond-midi')
+    k = gen_k(rng)
+    edges = [p for p in (mn - k - 1, mn - k, mn - k + 1, mx - k - 1, mx - k, mx - k + 1) if 0 <= p <= 127]
+    for n in ns.notes:
+        if edges and rng.random() < 0.55:
+            n.pitch = rng.choice(edges)
+            hist.add('drum-at-edge' if n.is_drum else 'pitched-at-edge')
+        if not n.is_drum:
+            hist.add('kept' if mn <= n.pitch + k <= mx else 'deleted')
+        else:
+            hist.add('drum')
+    for _ in range(rng.choice([0, 0, 1, 2])):
+        x = ns.key_signatures.add()
+        x.time, x.key, x.mode = rng.choice([0.0, 1.5, 4.0]), rng.randrange(12), rng.choice([0, 1])
+    if ns.key_signatures:
+        hist.add('keysig')
+    malformed = rng.random() < 0.1
+    for _ in range(rng.choice([0, 1, 2, 3, 5])):
+        x = ns.text_annotations.add()
+        x.time = rng.choice([0.0, 0.5, 2.0, rng.uniform(0, 8)])
+        x.quantized_step = rng.choice([0, 0, 3])
+        if rng.random() < 0.7:
+            x.annotation_type = 1
+            r = rng.random()
+            x.text = 'N.C.' if r < 0.15 else rng.choice(MALFORMED) if (malformed and r < 0.5) else gen_figure(rng, kinds)
+            hist.add('ann:N.C.' if x.text == 'N.C.' else 'ann:chord')
+        else:
+            x.annotation_type = rng.choice([0, 2])
+            x.text = rng.choice(['N.C.', 'C', 'Am7', 'hello wörld', '', 'verse 1'])
+            hist.add('ann:other')
+    tc = rng.random() < 0.75
+    hist.add('transpose_chords' if tc else 'remove_chords')
+    return ns, k, mn, mx, tc, hist
+
+
+def tns_request(csl, ns, k, mn, mx, tc):
+    texts = [ta.text for ta in ns.text_annotations if ta.annotation_type == 1]
+    return 'tns %d %d %d %d %s %s' % (k, mn, mx, 1 if tc else 0, table_tokens(csl, texts), nswire.encode(ns))
+
+
+def tns_impl(sl, ns, k, mn, mx, tc):
+    try:
+        out, d = sl.transpose_note_sequence(ns, k, mn, mx, tc)
+    except Exception as e:  # pylint: disable=broad-except
+        return 'err ' + type(e).__name__
+    return 'ok %d %s' % (d, nswire.encode(out))
+
+
+def gen_events(rng):
+    n = rng.choice([0, 1, 3, 8, 16])
+    lo = rng.randrange(0, 110)
+    hi = rng.randrange(lo, 128)
+    return [rng.choice([-2, -2, -1, rng.randint(lo, hi), rng.randint(lo, hi), rng.randrange(128)]) for _ in range(n)]
+
+
+def gen_range(rng):
+    r = rng.random()
+    if r < 0.75:
+        mn = rng.randrange(0, 117)
+        return mn, rng.randint(mn + 12, 128)
+    if r < 0.85:
+        mn = rng.randrange(0, 117)
+        return mn, mn + 12
+    if r < 0.93:
+        mn = rng.randrange(0, 120)
+        return mn, mn + rng.randrange(0, 12)        # too narrow: correspondence only
+    return rng.randint(-30, -1), rng.randint(0, 128)  # negative lower bound
+
+
+def gen_figs(rng, kinds, n):
+    bad = rng.random() < 0.2
+    out = []
+    cur = 'N.C.'
+    for _ in range(n):
+        if rng.random() < 0.5:
+            r = rng.random()
+            cur = 'N.C.' if r < 0.2 else rng.choice(MALFORMED) if (bad and r < 0.35) else gen_figure(rng, kinds)
+        out.append(cur)
+    return out
+
+
+def sym_request(st, ks):
+    return 'sym %s %s' % (sym_tokens(st), wl(ks))
+
+
+class SymCache:
+    """split structure and (root, bass, quality, pitches) of figure strings, from the real functions (pure)"""
+
+    def __init__(self, csl):
+        self.csl, self.d, self.o = csl, {}, {}
+
+    def octave(self, fig):
+        r = self.o.get(fig)
+        if r is None:
+            r = self.o[fig] = self.csl.transpose_chord_symbol(fig, 12)
+        return r
+
+    def get(self, fig):
+        r = self.d.get(fig)
+        if r is None:
+            r = self.d[fig] = (split_struct(self.csl, fig), values(self.csl, fig))
+        return r
+
+    def clear(self):
+        self.d.clear()
+        self.o.clear()
+
+
+def sym_impl(csl, cache, fig, ks):
+    """the line the model must print, computed from the real string functions only; plus the oracle's verdict"""
+    st, v0 = cache.get(fig)
+    parts = ['ok ' + hx(''.join(st['parts'])) + ' ' + values_tokens(v0)]
+    fails = []
+    for k in ks:
+        t = csl.transpose_chord_symbol(fig, k)
+        st2, v1 = cache.get(t)
+        back, octv = csl.transpose_chord_symbol(t, -k), cache.octave(t)
+        if st2 is None:
+            parts.append('%s UNSPLITTABLE' % hx(t))
+        else:
+            parts.append('%s %s %s %s %s' % (hx(t), struct_tokens(st2), values_tokens(v1), hx(back), hx(octv)))
+            if st2['kind'] != st['kind'] or st2['mods'] != st['mods'] or st2['modlist'] != st['modlist']:
+                parts[-1] += ' RESPLIT-KIND-MODS-DIFFER'
+        # oracle: the statement on the implementation's own outputs
+        r = (oracle_values(fig, k, v0, t, v1) or oracle_values(fig, 0, v0, back, cache.get(back)[1], 'k then -k')
+             or oracle_values(fig, k, v0, octv, cache.get(octv)[1], 'k then 12'))
+        if r:
+            fails.append((k, r))
+    return ' | '.join(parts), fails
+
+
+# ----------------------------------------------------------------------------- run
+class Batch:
+    """requests with the implementation's answer; flushed through the driver in chunks"""
+
+    def __init__(self, chk):
+        self.chk, self.items = chk, []
+
+    def add(self, stream, req, impl, key, hist, replay=None):
+        self.items.append((stream, req, impl, key, hist, replay))
+        if len(self.items) >= 20000:
+            self.flush()
+
+    def flush(self):
+        chk = self.chk
+        if not self.items:
+            return
+        model = chk.driver(EXE, [it[1] for it in self.items])
+        for (stream, req, impl, key, hist, replay), b in zip(self.items, model):
+            chk.count(stream, key, nontrivial=(b != 'bad-op'), hist=hist)
+            if impl != b:
+                chk.disagree(stream, replay if replay is not None else {'request': req[:3000]}, impl[:1500], b[:1500])
+        it = self.items[len(self.items) // 2]
+        if len(chk.samples) < 7 and not any(s.get('stream') == it[0] for s in chk.samples):
+            chk.sample({'stream': it[0], 'request': it[1][:240], 'impl': it[2][:240], 'model_equal': it[2] == model[len(self.items) // 2]}, limit=8)
+        self.items = []
+
+
+def _fail(chk, what, replay):
+    if len(chk.failures) < 40:
+        chk.fail(what, replay)
+
+
+def run(chk):
+    import logging as pylogging
+    from absl import logging as absl_logging
+    from note_seq import chord_symbols_lib as csl, sequences_lib as sl, melodies_lib as ml, chords_lib as cl, lead_sheets_lib as lsl
+    absl_logging.set_verbosity(absl_logging.ERROR)
+    pylogging.getLogger().setLevel(pylogging.ERROR)
+    generate(chk)
+    chk.prove(MODULES, THEOREMS, [EXE], extra_trusted=[
+        'regex layer of chord_symbols_lib (_split_chord_symbol, _parse_pitch_class, the _MODIFICATION_REGEX loop): modelled, not verified; '
+        'the model takes the real splitter\'s answer as input and re-splitting of every transposed figure is compared on every run',
+        'harness/c10.py transliteration of _clamp_transpose (gen/translit.py + min/abs/if-else-tail) and table extraction',
+        'protobuf CopyFrom / repeated-field semantics; numpy bincount/argmax (get_major_key); CPython dict insertion order',
+        'rne53 as a model of IEEE-754 binary64 (Melody.squash centre arithmetic; all values are half-integers)'])
+    chk.rule = ('(1) NoteSequences (NSGen + pitched/drum notes forced onto min-k-1..min-k+1 / max-k-1..max-k+1, key signatures, chord / N.C. / '
+                'other annotations, one in ten with an uninterpretable chord) x k in -127..127 x random allowed ranges (also empty, single pitch, beyond '
+                'MIDI) x transpose_chords; (2) chord grammar: 35 root spellings x every kind abbreviation of the table x %d modification strings x '
+                '%d basses x k in -12..12 (thorough: whole product; quick: seeded sample) plus wild spellings / k up to +-127; '
+                '_transpose_pitch_class on 7 steps x alter -6..6 x k; (3) melodies x (min,max) x k, squash, get_major_key; '
+                '(4) ChordProgression / LeadSheet transpose and squash incl. N.C. and unknown symbols; (5) _clamp_transpose and '
+                'augment_note_sequence with the random module replaced. non-trivial = distinct request answered by the model (not bad-op)'
+                % (len(MODS), len(BASSES)))
+    kinds = list(csl._CHORD_KINDS_BY_ABBREV)
+    B = Batch(chk)
+    cache = SymCache(csl)
+
+    # ---- committed corpus first (replay objects; oracle on the real code, and the model where a request exists)
+    for name, obj in corpus_cases(PID):
+        obj = obj.get('input', obj)
+        rs = oracle_obj(obj)
+        chk.count('corpus', name, rs is not None, obj.get('kind', '?'))
+        for r in rs or []:
+            _fail(chk, r, obj)
+        if obj.get('kind') == 'tns':
+            ns = nswire.decode(obj['sequence'])
+            a = (obj['k'], obj['min'], obj['max'], obj['transpose_chords'])
+            B.add('corpus', tns_request(csl, ns, *a), tns_impl(sl, ns, *a), 'm:' + name, 'tns-model', replay=obj)
+        elif obj.get('kind') == 'sym' and cache.get(obj['figure'])[0] is not None:
+            ks = [obj['k']] if 'k' in obj else obj['ks']
+            B.add('corpus', sym_request(cache.get(obj['figure'])[0], ks), sym_impl(csl, cache, obj['figure'], ks)[0], 'm:' + name, 'sym-model', replay=obj)
+        elif obj.get('kind') == 'mel':
+            B.add('corpus', 'mel %d %d %d %s' % (obj['k'], obj['min'], obj['max'], wl(obj['events'])),
+                  'ok ' + wl(run_melody(ml, obj['events'], obj['k'], obj['min'], obj['max'])), 'm:' + name, 'mel-model', replay=obj)
+    B.flush()
+
+    # ---- (2a) _transpose_pitch_class directly
+    krange = range(-150, 151) if chk.thorough else range(-26, 27)
+    for step in STEPS:
+        for alter in range(-6, 7):
+            for k in krange:
+                s2, a2 = csl._transpose_pitch_class(step, alter, k)
+                txt = csl._pitch_class_to_string(s2, a2)
+                back = csl._parse_pitch_class(txt)
+                impl = 'ok %s %d %d %s %s' % (pc_tokens((s2, a2)), csl._pitch_class_to_midi(step, alter),
+                                              csl._pitch_class_to_midi(s2, a2), hx(txt), pc_tokens(back))
+                B.add('pitch_class', 'pc %s %d' % (pc_tokens((step, alter)), k), impl, (step, alter, k),
+                      ['alter:' + ('sharp' if alter > 0 else 'flat' if alter < 0 else 'natural'), 'result:' + ('sharp' if a2 > 0 else 'flat' if a2 < 0 else 'natural')])
+                r = oracle_pc(csl, step, alter, k)
+                if r:
+                    _fail(chk, r, {'kind': 'pc', 'step': step, 'alter': alter, 'k': k})
+    B.flush()
+
+    # ---- (2b) the chord grammar through the real string functions and the structured model
+    rng = chk.subrng('grammar')
+
+    def do_figure(fig, ks, tag):
+        st, v0 = cache.get(fig)
+        if st is None:
+            chk.count('chord_grammar', fig, False, 'unsplittable-figure')
+            return
+        impl, fails = sym_impl(csl, cache, fig, ks)
+        hist = [tag, 'pitches:' + ('error' if isinstance(v0[3], str) else 'ok'), 'bass:' + ('slash' if st['bass'] else 'none')]
+        if ''.join(st['parts']) != fig:
+            hist.append('split-drops-trailing-newline')
+        B.add('chord_grammar', sym_request(st, ks), impl, fig, hist, replay={'kind': 'sym', 'figure': fig, 'ks': list(ks)})
+        chk.stream('chord_grammar')['evaluations'] += len(ks) - 1
+        for k, r in fails:
+            _fail(chk, r, {'kind': 'sym', 'figure': fig, 'k': k})
+
+    full_ks = list(range(-12, 13))
+    if chk.thorough:
+        for kind in kinds:
+            for mod in MODS:
+                cache.clear()
+                for root in ROOTS:
+                    for bass in BASSES:
+                        do_figure(root + kind + mod + bass, full_ks, 'grammar')
+        chk.exhaustive = True
+    else:
+        for kind in kinds:            # every kind abbreviation at least a few times
+            for _ in range(6):
+                do_figure(rng.choice(ROOTS) + kind + rng.choice(MODS) + rng.choice(BASSES), sorted(set(rng.sample(full_ks, 5)) | {12}), 'grammar')
+        for root in ROOTS:            # every root spelling with every amount
+            do_figure(root + rng.choice(kinds) + rng.choice(MODS) + rng.choice(BASSES), full_ks, 'grammar')
+        for _ in range(1500):
+            do_figure(rng.choice(ROOTS) + rng.choice(kinds) + rng.choice(MODS) + rng.choice(BASSES), sorted(set(rng.sample(full_ks, 5))), 'grammar')
+    cache.clear()
+    for _ in range(chk.n(800, 20000)):
+        do_figure(gen_figure(rng, kinds), sorted({gen_k(rng) for _ in range(4)}), 'wild')
+    for fig in ODD_VALID:
+        do_figure(fig, full_ks, 'wild')
+    B.flush()
+    cache.clear()
+
+    # ---- (1) transpose_note_sequence
+    rng = chk.subrng('tns')
+    for i in range(chk.n(1200, 30000)):
+        ns, k, mn, mx, tc, hist = gen_tns(rng, kinds)
+        req = tns_request(csl, ns, k, mn, mx, tc)
+        before = _ser(ns)
+        impl = tns_impl(sl, ns, k, mn, mx, tc)
+        hist.add('result:' + ' '.join(impl.split()[:2]) if impl.startswith('err') else 'result:ok')
+        if impl.startswith('ok') and int(impl.split()[1]) > 0:
+            hist.add('deleted>0')
+        replay = {'kind': 'tns', 'k': k, 'min': mn, 'max': mx, 'transpose_chords': tc, 'sequence': nswire.encode(ns)}
+        B.add('transpose_note_sequence', req, impl, req[:3000], sorted(hist), replay=replay)
+        r = oracle_tns(sl, csl, ns, k, mn, mx, tc)
+        if not r and _ser(ns) != before:
+            r = 'transpose_note_sequence(in_place=False) modified its argument'
+        chk.count('oracle', None)
+        if r:
+            _fail(chk, r, replay)
+    B.flush()
+
+    # ---- (3) melodies
+    rng = chk.subrng('melody')
+    for i in range(chk.n(2500, 60000)):
+        raw = gen_events(rng)
+        mn, mx = gen_range(rng)
+        k = gen_k(rng)
+        hist = ['range:' + ('valid' if mx - mn >= 12 else 'narrow'), 'min:' + ('negative' if mn < 0 else 'nonneg')]
+        edges = [t - k for t in (mn - 1, mn, mn + 1, mx - 1, mx, mx + 1) if 0 <= t - k <= 127]
+        if raw and edges and rng.random() < 0.5:       # pitches that land exactly on / next to the range limits
+            for _ in range(rng.choice([1, 2])):
+                raw[rng.randrange(len(raw))] = rng.choice(edges)
+            hist.append('event-at-range-edge')
+        ev = [int(e) for e in ml.Melody(raw)]          # the constructor turns leading note-offs into no-events
+        out = run_melody(ml, ev, k, mn, mx)
+        if any(a >= 0 and b != a + k for a, b in zip(ev, out)):
+            hist.append('folded')
+        B.add('melody_transpose', 'mel %d %d %d %s' % (k, mn, mx, wl(ev)), 'ok ' + wl(out), (k, mn, mx, tuple(ev)), hist)
+        r = oracle_mel(ml, ev, k, mn, mx)
+        chk.count('oracle', None)
+        if r:
+            _fail(chk, r, {'kind': 'mel', 'events': ev, 'k': k, 'min': mn, 'max': mx})
+        if i % 2 == 0:
+            key = rng.choice([None, None] + list(range(12)))
+            a, out = run_squash(ml, ev, mn, mx, key)
+            B.add('melody_squash', 'squash %d %d %s %s' % (mn, mx, 'N' if key is None else key, wl(ev)), 'ok %d %s' % (a, wl(out)),
+                  (mn, mx, key, tuple(ev)), ['key:' + ('none' if key is None else 'given'), 'amount:' + ('zero' if a == 0 else 'nonzero')])
+            B.add('major_key', 'key ' + wl(ev), 'ok %d' % int(ml.Melody(list(ev)).get_major_key()), tuple(ev), 'key')
+            r = oracle_squash(ml, ev, mn, mx, key)
+            if r:
+                _fail(chk, r, {'kind': 'squash', 'events': ev, 'min': mn, 'max': mx, 'key': key})
+    B.flush()
+
+    # ---- (4) ChordProgression / LeadSheet
+    rng = chk.subrng('chords')
+    for i in range(chk.n(1500, 30000)):
+        n = rng.choice([0, 1, 2, 4, 8])
+        figs = gen_figs(rng, kinds, n)
+        k = gen_k(rng)
+        tbl = table_tokens(csl, [f for f in figs if f != 'N.C.'])
+        st, out = run_cp(cl, csl, figs, k)
+        hist = ['status:' + st] + (['has-N.C.'] if 'N.C.' in figs else [])
+        B.add('chord_progression', 'cp %d %s %s' % (k, tbl, wl(hx(f) for f in figs)), '%s %s' % (st, wl(hx(f) for f in out)),
+              (k, tuple(figs)), hist, replay={'kind': 'cp', 'figures': figs, 'k': k})
+        r = oracle_cp(cl, csl, figs, k)
+        chk.count('oracle', None)
+        if r:
+            _fail(chk, r, {'kind': 'cp', 'figures': figs, 'k': k})
+        if i % 2 == 0:
+            ev = [int(e) for e in ml.Melody([rng.choice([-2, -1, rng.randrange(128)]) for _ in range(n)])]
+            mn, mx = gen_range(rng)
+            if i % 4 == 0:
+                op, args, reqhead = 'ls', (k, mn, mx), 'ls %d %d %d' % (k, mn, mx)
+            else:
+                key = rng.randrange(12)
+                op, args, reqhead = 'lsq', (mn, mx, key), 'lsq %d %d %d' % (mn, mx, key)
+            st, amount, ev2, ch2 = run_ls(ml, cl, lsl, csl, ev, figs, op, args)
+            impl = '%s %s%s %s' % (st, ('%s ' % ('-' if amount is None else amount)) if op == 'lsq' else '', wl(ev2), wl(hx(f) for f in ch2))
+            rp = {'kind': op, 'events': ev, 'figures': figs, 'args': list(args)}
+            B.add('lead_sheet', '%s %s %s %s' % (reqhead, tbl, wl(ev), wl(hx(f) for f in figs)), impl, (op, args, tuple(ev), tuple(figs)),
+                  [op + ':' + st], replay=rp)
+            r = oracle_ls(ml, cl, lsl, csl, ev, figs, op, args)
+            if r:
+                _fail(chk, r, rp)
+    B.flush()
+
+    # ---- (5) _clamp_transpose, augment_note_sequence
+    rng = chk.subrng('augment')
+    for i in range(chk.n(3000, 40000)):
+        mn, mx = sorted((rng.randrange(128), rng.randrange(128)))
+        if rng.random() < 0.8:
+            lo, hi = sorted((rng.randint(mn, mx), rng.randint(mn, mx)))
+        else:
+            lo, hi = sorted((rng.randrange(128), rng.randrange(128)))
+        a = rng.choice([0, 1, -1, mx - hi, mx - hi + 1, -(lo - mn), -(lo - mn) - 1, rng.randint(-140, 140)])
+        B.add('clamp_transpose', 'clamp %d %d %d %d %d' % (a, lo, hi, mn, mx), 'ok %d' % sl._clamp_transpose(a, lo, hi, mn, mx),
+              (a, lo, hi, mn, mx), ['in-bounds' if mn <= lo and hi <= mx else 'out-of-bounds', 'sign:' + ('neg' if a < 0 else 'nonneg')])
+        r = oracle_clamp(sl, a, lo, hi, mn, mx)
+        if r:
+            _fail(chk, r, {'kind': 'clamp', 'args': [a, lo, hi, mn, mx]})
+    for i in range(chk.n(500, 10000)):
+        ns = nswire.NSGen(rng, max_notes=rng.choice([0, 1, 4, 10])).make(texts=False)
+        r = rng.random()
+        if r < 0.6:
+            mn, mx = sorted((rng.randrange(0, 60), rng.randrange(60, 128)))
+            for n in ns.notes:
+                n.pitch = rng.choice([mn, mx, rng.randint(mn, mx), rng.randint(mn, mx)])
+        elif r < 0.9:
+            mn, mx = sorted((rng.randrange(128), rng.randrange(128)))
+        else:
+            mx, mn = sorted((rng.randrange(128), rng.randrange(128)))
+            mn += 1
+        if rng.random() < 0.3:
+            x = ns.text_annotations.add()
+            x.annotation_type, x.text = 1, rng.choice(['C', 'N.C.', 'F#m7/E', 'H'])
+        if rng.random() < 0.05:
+            ns.quantization_info.steps_per_quarter = 4
+        t1, t2 = rng.randint(-30, 30), rng.randint(-30, 30)
+        if rng.random() < 0.9:
+            t1, t2 = min(t1, t2), max(t1, t2)
+        delete, mode = rng.random() < 0.3, rng.randrange(3)
+        st, rg, out = run_aug(sl, ns, t1, t2, mn, mx, delete, mode)
+        impl = st if out is None else 'ok %s %s' % ('%d %d' % rg if rg else '- -', nswire.encode(out))
+        texts = [ta.text for ta in ns.text_annotations if ta.annotation_type == 1]
+        req = 'aug %d %d %d %d %d %d %s %s' % (t1, t2, mn, mx, 1 if delete else 0, mode, table_tokens(csl, texts), nswire.encode(ns))
+        rp = {'kind': 'aug', 'args': [t1, t2, mn, mx, delete, mode], 'sequence': nswire.encode(ns)}
+        B.add('augment', req, impl, req[:3000], ['delete' if delete else 'clamp', 'result:' + ' '.join(impl.split()[:2]) if impl.startswith('err') else 'result:ok'], replay=rp)
+        r = oracle_aug(sl, csl, ns, t1, t2, mn, mx, delete, mode)
+        if r:
+            _fail(chk, r, rp)
+    B.flush()
+
+
+# ----------------------------------------------------------------------------- replay
+def oracle_obj(obj, verbose=False):
+    """run the oracle for one replay / corpus object against the real code; list of failures (None = unknown kind)"""
+    from note_seq import chord_symbols_lib as csl, sequences_lib as sl, melodies_lib as ml, chords_lib as cl, lead_sheets_lib as lsl
+    kind = obj.get('kind')
+    say = print if verbose else (lambda *a: None)
+    if kind == 'pc':
+        say('  _transpose_pitch_class ->', _val(csl, lambda f: csl._transpose_pitch_class(obj['step'], obj['alter'], obj['k']), None))
+        rs = [oracle_pc(csl, obj['step'], obj['alter'], obj['k'])]
+    elif kind == 'sym':
+        rs = []
+        for k in ([obj['k']] if 'k' in obj else obj['ks']):
+            say('  transpose_chord_symbol(%r, %d) -> %r' % (obj['figure'], k, _val(csl, lambda f: csl.transpose_chord_symbol(f, k), obj['figure'])))
+            rs.append(oracle_sym(csl, obj['figure'], k))
+    elif kind == 'tns':
+        ns = nswire.decode(obj['sequence'])
+        say('  ->', tns_impl(sl, ns, obj['k'], obj['min'], obj['max'], obj['transpose_chords'])[:400])
+        rs = [oracle_tns(sl, csl, ns, obj['k'], obj['min'], obj['max'], obj['transpose_chords'])]
+    elif kind == 'mel':
+        rs = [oracle_mel(ml, obj['events'], obj['k'], obj['min'], obj['max'])]
+        say('  ->', _val(csl, lambda f: run_melody(ml, obj['events'], obj['k'], obj['min'], obj['max']), None))
+    elif kind == 'squash':
+        rs = [oracle_squash(ml, obj['events'], obj['min'], obj['max'], obj['key'])]
+        say('  ->', _val(csl, lambda f: run_squash(ml, obj['events'], obj['min'], obj['max'], obj['key']), None))
+    elif kind == 'cp':
+        rs = [oracle_cp(cl, csl, obj['figures'], obj['k'])]
+        say('  ->', _val(csl, lambda f: run_cp(cl, csl, obj['figures'], obj['k']), None))
+    elif kind in ('ls', 'lsq'):
+        rs = [oracle_ls(ml, cl, lsl, csl, obj['events'], obj['figures'], kind, tuple(obj['args']))]
+        say('  ->', _val(csl, lambda f: run_ls(ml, cl, lsl, csl, obj['events'], obj['figures'], kind, tuple(obj['args'])), None))
+    elif kind == 'clamp':
+        rs = [oracle_clamp(sl, *obj['args'])]
+        say('  ->', _val(csl, lambda f: sl._clamp_transpose(*obj['args']), None))
+    elif kind == 'aug':
+        rs = [oracle_aug(sl, csl, nswire.decode(obj['sequence']), *obj['args'])]
+    else:
+        return None
+    return [r for r in rs if r]
+
+
+def replay(chk, obj):
+    print('replay C10:', {k: (v if k != 'sequence' else v[:200] + ' …') for k, v in obj.items()})
+    rs = oracle_obj(obj, verbose=True)
+    if rs is None:
+        print('not a failing-input replay (kind=%r): nothing to run against the real code' % obj.get('kind'))
+        return 0
+    for r in rs:
+        print('PROPERTY FAILS: %s' % r)
+    if not rs:
+        print('property holds on this input')
+    return 1 if rs else 0
